@@ -12,6 +12,7 @@ import math
 import warnings
 
 import backends
+import analysis
 import common
 import reuse
 from common import Check
@@ -244,6 +245,7 @@ def main():
     c01.evaluate_captured(chk, mism)
     run(chk, 6 if q else 40)
     reuse.analyze_after_mutation(chk, 4 if q else 24, "results depend on more than the data")
+    analysis.narrow_ints(chk, 4 if q else 24, "results depend on how the same logical data is stored")
     chk.cov["rule"] = ("data: 2..4 variants (int / str / bool ids), 36..412 rows, int and float columns; definitions: Mean, "
                        "Mean+cov, ratio, ratio+cov, SampleRatio (+ Quantile, 2-column Bootstrap, fixed seeds, every other "
                        "case), control None / given, all pairs, solve_power; inputs: pandas, Polars eager / lazy, PyArrow, "
